@@ -324,6 +324,10 @@ pub fn classify(v: &View, f: &RawFrame, a: &EvAttr) -> Class {
                     return Class::Stream(sid);
                 }
                 let len = f.payload.len() as i64;
+                if len == 0 {
+                    // zero-length DATA is not flow-controlled: legal even while a window is zero or negative
+                    return Class::Ok { content: false };
+                }
                 if len > v.conn_recv_window {
                     Class::Conn
                 } else if len > v.subj_iws + s.subj_wu - s.peer_flow {
@@ -511,6 +515,7 @@ pub fn states() -> Vec<StateSpec> {
         s("s-pushed", Server, true),
         s("s-settings-in-flight", Server, true),
         StateSpec { max_concurrent_1: true, ..s("s-refused", Server, false) },
+        s("s-recv-window-negative", Server, true),
         s("c-fresh", Client, true),
         s("c-request-open", Client, true),
         s("c-half-closed-local", Client, true),
@@ -526,6 +531,7 @@ pub fn states() -> Vec<StateSpec> {
         StateSpec { max_concurrent_1: true, ..s("c-request-parked", Client, false) },
         s("c-settings-in-flight", Client, true),
         StateSpec { push_disabled: true, ..s("c-push-disabled", Client, true) },
+        s("c-send-window-negative", Client, true),
     ]
 }
 
@@ -536,6 +542,21 @@ pub struct App {
     pub send_streams: Vec<(u32, h2::SendStream<Bytes>)>,
     pub bodies: Vec<(u32, h2::RecvStream)>,
     pub flag: Option<std::sync::Arc<Flag>>,
+}
+
+impl App {
+    /// drop the handles one at a time (see `t2::safe_drop`)
+    pub fn release(self, panics: &mut Vec<String>) {
+        for (_, x) in self.resp_futs {
+            safe_drop(panics, "ResponseFuture", x);
+        }
+        for (_, x) in self.send_streams {
+            safe_drop(panics, "SendStream", x);
+        }
+        for (_, x) in self.bodies {
+            safe_drop(panics, "RecvStream", x);
+        }
+    }
 }
 
 fn client_request(t: &mut T2, app: &mut App, post: bool) -> Option<u32> {
@@ -683,6 +704,32 @@ pub fn enter(t: &mut T2, s: &StateSpec) -> App {
         }
         "c-request-open" => {
             client_request(t, &mut app, true);
+            t.drive(d);
+        }
+        "s-recv-window-negative" => {
+            // the peer has used part of the stream window, then the application lowers the initial window to 0 and the peer
+            // acknowledges: the stream's receive window is negative
+            t.peer_request(1, "/a", false);
+            t.drive(d);
+            t.peer_send(&wf::data(1, &[0x11; 100], false));
+            t.drive(d);
+            if let Conn::Server(c) = &mut t.conn {
+                let _ = c.set_initial_window_size(0);
+            }
+            t.conn_flag.wake_by_ref_pub();
+            t.drive(d);
+            t.peer_ack_settings();
+            t.drive(d);
+        }
+        "c-send-window-negative" => {
+            // the client has sent part of a body, then the peer lowers INITIAL_WINDOW_SIZE to 0: the send window is negative
+            client_request(t, &mut app, true);
+            t.drive(d);
+            if let Some((_, ss)) = app.send_streams.first_mut() {
+                let _ = ss.send_data(Bytes::from(vec![0x22; 100]), false);
+            }
+            t.drive(d);
+            t.peer_send(&wf::settings(&[(wf::setting::INITIAL_WINDOW_SIZE, 0)]));
             t.drive(d);
         }
         "c-half-closed-local" => {
@@ -1120,7 +1167,9 @@ pub fn run_pair(s: &StateSpec, ev_label: &str, verbose: bool) -> Option<PairResu
     let transitions = t.events;
     let obs = fnv64(format!("{:?}|{:?}|{:?}|{:?}", goaway, rsts, marker, t.conn_result).as_bytes());
     let leftover = {
-        drop(app);
+        let mut p = std::mem::take(&mut t.panics);
+        app.release(&mut p);
+        t.panics = p;
         t.finish()
     };
     if !leftover.is_empty() {
@@ -1150,7 +1199,10 @@ pub fn all_pairs() -> Vec<(StateSpec, String)> {
         for e in events_for(&view, &s) {
             pairs.push((s.clone(), e.label));
         }
-        drop(app);
+        let mut t = t;
+        let mut p = std::mem::take(&mut t.panics);
+        app.release(&mut p);
+        t.panics = p;
         let _ = t.finish();
     }
     pairs
